@@ -187,13 +187,15 @@ CLAIMED = {
             "both calling conventions): for all 16-bit arguments div is signed division truncating towards zero and mod "
             "its remainder (sign of the dividend), a zero divisor gives zero, results are 16-bit words and "
             "divisor*quotient+remainder recomposes the dividend; and, on the specification machine of C01, the full "
-            "contract for every machine state of six routines written in HERA assembly: size, ord and not in both calling "
-            "conventions (result, return to the caller, FP restored, SP and the caller's registers unchanged, exactly "
-            "which memory cells are written), `not` being placed at an arbitrary address (its label branches are absolute); "
-            "these rest on C19_core_simulation (registers/memory/pc/flags of the Spec machine evolve independently of "
-            "hera-py's bookkeeping) and on instruction lists compared with what the real loader produces from "
-            "hera/stdlib.py at three load addresses. NOT theorems: chr, concat, substring, tstrcmp, malloc (loops, calls "
-            "into malloc) and the I/O functions — decided by running each "
+            "contract for every machine state of eight routines written in HERA assembly: size, ord, not and malloc in both "
+            "calling conventions (result, return to the caller, FP restored, SP and the caller's registers unchanged, exactly "
+            "which memory cells are written), `not` and the stack `malloc` being placed at an arbitrary address (their label "
+            "branches are absolute); malloc is shown to refine a bump allocator on the cell 0x4000, and for that allocator "
+            "the blocks handed out over ANY request sequence are pairwise disjoint and strictly inside the heap "
+            "(C19_malloc_blocks_disjoint); these rest on C19_core_simulation (registers/memory/pc/flags of the Spec machine "
+            "evolve independently of hera-py's bookkeeping) and on instruction lists compared with what the real loader "
+            "produces from hera/stdlib.py at three load addresses. NOT theorems: chr, concat, substring, tstrcmp (loops, "
+            "calls into malloc), the failure path of malloc (prints and exits) and the I/O functions — decided by running each "
             "function in both conventions on the real interpreter with edge/random arguments under random register "
             "contents (result vs independent computation, return to the caller, SP/FP restored, R1..R10 preserved in the "
             "stack convention, malloc blocks disjoint).",
